@@ -102,6 +102,17 @@ def executeCode (dec thou : String) (code : String) (v : F) : Option F :=
   let s := strReplace code.toList "{value}".toList (Num.short v).toList
   basicExecute dec thou (strReplace s ['.'] dec.toList)
 
+/-- the text `execute_code` hands to the tokenizer: the code with the amount substituted -/
+def codeText (code : String) (v : F) : List Char := strReplace code.toList "{value}".toList (Num.short v).toList
+
+/-- every '.' of a text follows a digit or a '.' that does (it stands inside a number body) -/
+def dotsOK : Bool → List Char → Bool
+  | _, [] => true
+  | prev, c :: rest => if c = '.' then prev && dotsOK true rest else dotsOK (isDigit c) rest
+
+/-- hypothesis of `SCP.C08Code.executeCode_comma` on one code and amount (evaluated by the checks) -/
+def codeTextOK (code : String) (v : F) : Bool := !(codeText code v).contains ',' && dotsOK false (codeText code v)
+
 def findItem? (items : List (UnitItem F)) (idx : Nat) : Option (UnitItem F) := items.find? (·.index = idx)
 
 /-- `calculate_unit`: apply the up/down code of each item from `src` towards `tgt`; `ex` is the
